@@ -512,13 +512,19 @@ func (b *builder) processFunction(root *functionNode, props *builderProp) (query
 		if len(root.Args) > 1 {
 			return nil, fmt.Errorf("xpath: %s function must have at most one parameter", root.FuncName)
 		}
+		// string() and number() without an argument apply to the context node;
+		// boolean() has no such form.
+		arg := newAxisNode("self", allNode, "", "", "", nil)
 		if len(root.Args) == 1 {
-			argQuery, err := b.processNode(root.Args[0], flagsEnum.None, props)
-			if err != nil {
-				return nil, err
-			}
-			inp = argQuery
+			arg = root.Args[0]
+		} else if root.FuncName == "boolean" {
+			return nil, errors.New("xpath: boolean function must have one parameter")
 		}
+		argQuery, err := b.processNode(arg, flagsEnum.None, props)
+		if err != nil {
+			return nil, err
+		}
+		inp = argQuery
 		switch root.FuncName {
 		case "boolean":
 			qyOutput = &functionQuery{Func: booleanFunc(inp)}
